@@ -22,6 +22,9 @@ fn main() {
         eprintln!("usage: vcheck <ID> <quick|thorough> | vcheck <ID> --replay <file>");
         std::process::exit(2);
     }
+    if std::env::var("VERIF_RNG_TRACE").is_ok() {
+        csverif::engine::env::TRACE_RNG.store(true, std::sync::atomic::Ordering::Relaxed);
+    }
     report::quiet_panics();
     csverif::engine::sched::install_pause_hook();
     let id = args[0].to_uppercase();
